@@ -14,6 +14,9 @@
 #include "Vector.h"
 #include "complex_promote.h"
 #include <stdexcept>
+#ifdef EPSIC_VERIF
+#include <type_traits>
+#endif
 
 //! Matrix is a column vector of row vectors
 template <unsigned Rows, unsigned Columns, typename T> 
@@ -31,6 +34,19 @@ public:
     for (unsigned i=0; i<Rows; i++)
       this->x[i][i] = s;
   }
+
+#ifdef EPSIC_VERIF
+  //! Verification hook: construct from an int literal (e.g. "return 0;")
+  /*! Enabled only for symbolic-scalar builds, where int -> T -> Matrix
+      would require two user-defined conversions.  Same result as Matrix(T). */
+  template<typename I, typename std::enable_if<std::is_same<I,int>::value,int>::type = 0>
+  Matrix (I s)
+  {
+    zero ();
+    for (unsigned i=0; i<Rows && i<Columns; i++)
+      this->x[i][i] = T(s);
+  }
+#endif
 
   //! Construct from another Vector of Vector<U> instance
   template<typename U> Matrix (const Vector< Rows, Vector<Columns,U> >& s)
